@@ -499,6 +499,10 @@ def _doc_spec(case, before, after, op, raised):
                     return "numeric token %r stored as %r under %r" % (op[1][i + 1], a[t], t)
                 if c.startswith("(NumFlt") and a[t][0] != "f" and op[1].count(t) == 1:
                     return "numeric token %r stored as %r under %r" % (op[1][i + 1], a[t], t)
+                # types are kept: only numeric tokens are converted, so a string parameter that is given a non-numeric
+                # token (also 'none' / '[]', which mean the empty list for LIST parameters only) still holds a string
+                if c == "NotNum" and b[t][0] == "s" and a[t][0] != "s" and op[1].count(t) == 1:
+                    return "string parameter %r given the non-numeric token %r became %r (type changed)" % (t, op[1][i + 1], a[t])
         if not raised:
             for i, t in enumerate(op[1]):
                 if t in b and b[t][0] == "b" and t != PALETTE and op[1].count(t) == 1:
@@ -775,6 +779,32 @@ def history_cases(ctx):
     return cs
 
 
+EMPTY_TOKENS = ["none", "None", "[]", "NONE"]
+
+
+def empty_token_cases(ctx):
+    """`evo_config set <parameter> none|None|[]` for every non-boolean parameter: the empty-list words belong to list
+    parameters; a string parameter keeps the word as a string (`set plot_multi_cmap none` switches the colormap off)"""
+    rng = ctx.np_rng(25)
+    dflt = defaults()
+    skeys = [k for k in sorted(dflt) if isinstance(dflt[k], str) and k != PALETTE]
+    okeys = [k for k in sorted(dflt) if not isinstance(dflt[k], (str, bool))] + [PALETTE]
+    cs = []
+    for j, k in enumerate(skeys):
+        for tok in EMPTY_TOKENS[:3]:
+            cs.append({"kind": "history", "init": "defaults", "ops": [["set", [k, tok]]]})
+        # with further values, after other tokens, next to another parameter, on a user-edited document
+        other = skeys[(j + 7) % len(skeys)]
+        tok = EMPTY_TOKENS[j % 4]
+        extra = [[k, tok, "abc"], ["unknown_key", k, tok], [k, tok, other, EMPTY_TOKENS[(j + 1) % 4]], [other, "xyz", k, tok, "1"]][j % 4]
+        init = "defaults" if j % 2 else tag_dict(random_doc(rng, sorted(dflt), dflt))
+        cs.append({"kind": "history", "init": init, "ops": [["set", extra], ["set", [k, "back"]]]})
+    for k in okeys:
+        for tok in EMPTY_TOKENS[:3:2]:
+            cs.append({"kind": "history", "init": "defaults", "ops": [["set", [k, tok]], ["set", [k, "2", "3"]]]})
+    return cs
+
+
 def container_cases(ctx):
     rng = ctx.np_rng(22)
     cs = []
@@ -891,6 +921,9 @@ def corpus():
                                                         ["set", ["plot_linewidth", "nan"]], ["set", [PALETTE, "5"]], ["set", [PALETTE, "Set2"]],
                                                         ["set", [PALETTE, "nonsense"]], ["set", [PALETTE, "red", "blue"]],
                                                         ["reset", ["plot_split", "plot_linewidth", "nokey"]], ["upgrade"], ["reset", None]]},
+        # the documented way to switch the multi-trajectory colormap off again; 'none' is a string there
+        {"kind": "history", "init": "defaults", "ops": [["set", ["plot_multi_cmap", "viridis"]], ["set", ["plot_multi_cmap", "none"]]]},
+        {"kind": "history", "init": "defaults", "ops": [["set", ["plot_backend", "[]", "plot_statistics", "none"]]]},
         {"kind": "history", "init": tag_dict({"plot_split": True, "user_only": 1}), "ops": [["upgrade"], ["set", ["user_only", "2"]],
                                                                                              ["merge", True, tag_dict({"plot_split": False, "plot_usetex": True})],
                                                                                              ["merge", False, tag_dict({"plot_split": False})]]},
@@ -939,7 +972,7 @@ def run(ctx, replay=None, proofs_ok=True):
         if not cases or not proofs_ok:
             cases = cases + corpus()
     else:
-        cases = corpus() + history_cases(ctx) + container_cases(ctx) + mergecfg_cases(ctx) + generate_cases(ctx) + e2e_cases(ctx)
+        cases = corpus() + history_cases(ctx) + empty_token_cases(ctx) + container_cases(ctx) + mergecfg_cases(ctx) + generate_cases(ctx) + e2e_cases(ctx)
     failures, stats = differential(ctx, cases, imports=IMPORTS, impl=impl, expr=expr, judge=judge, shrink=shrink,
                                    nontrivial=nontrivial, per_file=20)
     hist = {}
@@ -965,6 +998,7 @@ def run(ctx, replay=None, proofs_ok=True):
            "rule": "corpus (F6 inputs, palette/nan refusals, user documents with unknown keys, lock rewrite) + random edit "
                    "histories of 1..6 set/reset/merge(soft,hard)/upgrade operations over the %d settings keys on scratch files "
                    "(tokens: keys, unknown keys, true/false spellings, ints, floats, nan/inf, palette names, list words), "
+                   "set <parameter> none|None|[] for every non-boolean parameter (string parameters keep a string), "
                    "document compared after every operation + SettingsContainer assignment/update/get sequences + merge_config "
                    "(namespace, SETTINGS, settings file bytes) + generate on argument lists drawn from the introspected option "
                    "tables of evo_ape/evo_rpe/evo_traj (flags, str with choices, int, float incl. negative and integral spellings, "
